@@ -459,7 +459,11 @@ impl ReactCache
         mut commands        : Commands,
         cache               : Res<ReactCache>,
         entity_reactors     : Query<&EntityReactors>,
+        entities            : Query<Entity>,
     ){
+        // if the target entity doesn't exist, drop the event
+        if !entities.contains(target) { return; }
+
         // get reactors
         let entity_reactors = entity_reactors.get(target);
         let handlers = cache.any_entity_event_reactors.get(&TypeId::of::<E>());
